@@ -948,12 +948,15 @@ fn norms_f64(st: &mut Stats, rng: &mut Rng) {
     if n >= 2 { let mut h = hash_str("norms-f64"); for x in &a { h = hmix(h, x.to_bits()); } st.nontrivial(h); }
     // extreme magnitudes (|x| ~ 2^+-600): the property's "inf-norm <= 2-norm <= 1-norm for all data" also covers
     // data whose squares / p-th powers are not representable although every norm is
-    if n > 0 && rng.chance(0.05) {
-        let big = rng.bool();
-        let e: Vec<f64> = a.iter().map(|x| (if x.signum() == 0.0 { 1.0 } else { x.signum() }) * (if big { 2f64.powi(600) } else { 2f64.powi(-600) }) * (1.0 + x.abs().min(1.0))).collect();
+    if n > 0 && rng.chance(0.25) {
+        // common scale 2^ex with ex anywhere in the normal range: also the middle ranges where squares are
+        // representable but 8th powers are not
+        let ex = rng.int(-900, 900) as i32;
+        let big = ex > 0;
+        let e: Vec<f64> = a.iter().map(|x| (if x.signum() == 0.0 { 1.0 } else { x.signum() }) * 2f64.powi(ex) * (1.0 + x.abs().min(1.0))).collect();
         let ni = e.iter().fold(0f64, |m, x| m.max(x.abs()));
         let n1: f64 = e.iter().map(|x| x.abs()).sum();
-        let p = *rng.pick(&[2.0, 3.0, 8.0]);
+        let p = *rng.pick(&[2.0, 3.0, 5.0, 8.0, 1.0, 2.5]);
         for (name, out) in [("norm_2", catch(|| mk(&e).norm_2())), ("norm_p", catch(|| mk(&e).norm_p(p)))] {
             st.eval();
             match out {
@@ -1205,7 +1208,7 @@ pub fn run(ctx: &Ctx) -> Report {
         "generic dot is the bilinear sum of a_i*b_i (no conjugation), as coded and documented in the source".into(),
         "find(x) = first index of an element equal to x, else len-1 (source comment); find/sum/product/norm_inf on an empty vector, pop on empty and linspace/powspace with n<2 are undefined: panic or conventional value (0, 1) accepted".into(),
         "f64 / Complex<f64> exact checks are made only on small dyadic data for which the generator certifies every intermediate exactly representable (integers*2^-s below 2^50, any evaluation order); otherwise the case is skipped and counted".into(),
-        "numerical norms are judged for entries that are 0 or of magnitude within [2^-118, 2^118] (no overflow/underflow of |x|^8 or of 64-term sums) with fixed tolerances; for entries of magnitude ~2^+-600 only finiteness and inf-norm <= norm_2/norm_p <= 1-norm are judged".into(),
+        "numerical norms are judged for entries that are 0 or of magnitude within [2^-118, 2^118] (no overflow/underflow of |x|^8 or of 64-term sums) with fixed tolerances; for entries at a common scale 2^e, e in [-900,900], finiteness and inf-norm <= norm_2/norm_p <= 1-norm are judged".into(),
         "tolerances (fixed): norms NORM_K*(n+8+|ln N|)*u relative with NORM_K=128; complex modulus 256u; norm_inf(f64) exact; laws with 3x the value tolerance as slack; linspace/powspace elements 128*(4u|b-a|+u*max(|a|,|b|)); strict monotonicity demanded when the true step >= 32u*max(|a|,|b|)".into(),
         "abs()/norm_1() over the harness type CRat use its Signed::abs (|re|+|im|) by definition; Complex<f64> abs is the modulus sqrt(re^2+im^2)".into(),
         "Rat overflow in model or library => case skipped (counted), never judged".into(),
